@@ -5,3 +5,35 @@ use crate::gate::*;
 pub fn emit_bad(c: &mut Circuit, a: usize, b: usize) {
     c.push(Gate::new(XCX, vec![a, b]));
 }
+
+pub struct BM;
+impl BM {
+    pub fn cols(&self) -> usize {
+        0
+    }
+    pub fn rows(&self) -> usize {
+        0
+    }
+    pub fn row_weight(&self, i: usize) -> usize {
+        0
+    }
+    pub fn bit(&self, r: usize, c: usize) -> bool {
+        false
+    }
+}
+
+/// control (C03 R-ARGMIN): strict comparison against an attainable initial bound
+pub fn single_sln_set(m1: &BM, row_ops: &BM) -> usize {
+    let mut min_weight = row_ops.cols();
+    let mut min_weight_row = 0;
+    for i in 0..m1.rows() {
+        if m1.row_weight(i) == 1 {
+            let weight = row_ops.row_weight(i);
+            if weight < min_weight {
+                min_weight_row = i;
+                min_weight = weight;
+            }
+        }
+    }
+    min_weight_row
+}
